@@ -96,6 +96,8 @@ REF_RE = re.compile(r"^(?:stage(\d+)\.)?([^/:\s]+)(?:/([^:\s]*))?:([A-Za-z]+)(/\
 
 def parse_ref(tok, owner_stage):
     """-> ("ref", stage, name, path, method, tail) or ("lit", tok)"""
+    if not isinstance(tok, str):            # whatever the code produced is compared, never a reason to crash the harness
+        return ("lit", repr(tok))
     m = REF_RE.match(tok)
     if not m:
         return ("lit", tok)
@@ -104,7 +106,11 @@ def parse_ref(tok, owner_stage):
 
 
 def parse_args(text, owner_stage):
-    return [parse_ref(t, owner_stage) for t in (text or "").split()]
+    if text is None:
+        return []
+    if not isinstance(text, str):
+        return [("lit", repr(text))]
+    return [parse_ref(t, owner_stage) for t in text.split()]
 
 
 # ---------------------------------------------------------------------------------------------------------------------
@@ -152,15 +158,38 @@ def run_concrete(flowir):
         return _err(e)
 
 
+class _Hang(Exception):
+    pass
+
+
+def _guarded(fn, flowir, timeout=60):
+    """Run one load of the real code: any exception (also a hang, a RecursionError, ...) becomes a result, not a crash."""
+    import signal
+
+    def on_alarm(*_):
+        raise _Hang("no answer within %ds" % timeout)
+    old = signal.signal(signal.SIGALRM, on_alarm)
+    signal.alarm(timeout)
+    try:
+        return fn(flowir)
+    except BaseException as e:          # run_* catch Exception themselves; this is the alarm / SystemExit / KeyboardInterrupt net
+        if isinstance(e, KeyboardInterrupt):
+            raise
+        return _err(e)
+    finally:
+        signal.alarm(0)
+        signal.signal(signal.SIGALRM, old)
+
+
 def exec_case(args):
     """(case, paths) -> {path: projection}"""
     case, paths = args
     flowir = render_flowir(case)
     res = {}
     if "graph" in paths:
-        res["graph"] = run_graph(flowir)
+        res["graph"] = _guarded(run_graph, flowir)
     if "concrete" in paths:
-        res["concrete"] = run_concrete(flowir)
+        res["concrete"] = _guarded(run_concrete, flowir)
     return res
 
 
@@ -256,10 +285,6 @@ def v_render_flowir(case):
     return {"variables": variables, "components": comps}
 
 
-class _Hang(Exception):
-    pass
-
-
 def _accept_checks(graph, conf_for_node, ncomponents):
     """What C11 promises about a workflow that loaded. -> list of problems"""
     import networkx
@@ -309,7 +334,9 @@ def v_run(flowir, path, scratch, timeout=30):
         return {"accepted": True, "problems": problems}
     except _Hang:
         return {"hang": True}
-    except Exception as e:
+    except KeyboardInterrupt:
+        raise
+    except BaseException as e:          # also SystemExit & co: whatever the real code raises is a result, not a harness crash
         signal.alarm(0)
         return _err(e)
     finally:
